@@ -1,6 +1,6 @@
 #!/bin/sh
 # usage: tools_seedtest.sh <PROPERTY> <patch.diff> [extra check args]  — apply a seeded change to a scratch worktree, run the quick check against it
-P=$1; D=$2; shift 2
+P=$1; D=$(realpath "$2"); shift 2
 W=/tmp/seedtest_$$
 git -C /repo worktree add -q --detach $W HEAD || exit 3
 if ! git -C $W apply "$D"; then echo "PATCH DOES NOT APPLY"; git -C /repo worktree remove --force $W; exit 3; fi
